@@ -6,6 +6,7 @@ package layout
 
 import (
 	"sort"
+	"strings"
 
 	"github.com/tsawler/tabula/model"
 	"github.com/tsawler/tabula/text"
@@ -443,11 +444,32 @@ func (a *Analyzer) buildElementTree(result *AnalysisResult) []LayoutElement {
 		}
 	}
 
+	// Headings and lists come from a different segmentation of the lines than the
+	// paragraphs. A paragraph overlapping a heading or list box is only dropped as
+	// far as its fragments really are part of a heading or list; whatever else it
+	// holds (body lines glued to a heading line, a plain line between two list
+	// items) stays a paragraph, so that no text is lost.
+	owned := make(map[fragmentKey]bool)
+	if result.Headings != nil {
+		for _, heading := range result.Headings.Headings {
+			markOwnedFragments(owned, heading.Lines)
+		}
+	}
+	if result.Lists != nil {
+		for _, list := range result.Lists.Lists {
+			markOwnedListFragments(owned, list.Items)
+		}
+	}
+
 	// Add remaining paragraphs
 	if result.Paragraphs != nil {
 		for i, para := range result.Paragraphs.Paragraphs {
 			if consumedParaIndices[i] {
-				continue
+				rest, ok := unownedRemainder(para, owned)
+				if !ok {
+					continue
+				}
+				para = rest
 			}
 			elem := LayoutElement{
 				Type:      model.ElementTypeParagraph,
@@ -471,6 +493,67 @@ func (a *Analyzer) buildElementTree(result *AnalysisResult) []LayoutElement {
 	}
 
 	return elements
+}
+
+// fragmentKey identifies a fragment by what it shows and where.
+type fragmentKey struct {
+	text string
+	x, y float64
+}
+
+func markOwnedFragments(owned map[fragmentKey]bool, lines []Line) {
+	for _, line := range lines {
+		for _, f := range line.Fragments {
+			owned[fragmentKey{f.Text, f.X, f.Y}] = true
+		}
+	}
+}
+
+func markOwnedListFragments(owned map[fragmentKey]bool, items []ListItem) {
+	for _, item := range items {
+		markOwnedFragments(owned, item.Lines)
+		markOwnedListFragments(owned, item.Children)
+	}
+}
+
+// unownedRemainder returns the part of a paragraph whose fragments belong to no
+// heading or list, and false if nothing remains. A paragraph whose lines carry no
+// fragments cannot be compared and is treated as fully covered.
+func unownedRemainder(para Paragraph, owned map[fragmentKey]bool) (Paragraph, bool) {
+	var lines []Line
+	var texts []string
+	total := 0
+	for _, line := range para.Lines {
+		var rest []text.TextFragment
+		for _, f := range line.Fragments {
+			total++
+			if !owned[fragmentKey{f.Text, f.X, f.Y}] {
+				rest = append(rest, f)
+			}
+		}
+		if len(rest) == 0 {
+			continue
+		}
+		if len(rest) < len(line.Fragments) {
+			words := make([]string, len(rest))
+			for i, f := range rest {
+				words[i] = f.Text
+			}
+			line.Fragments = rest
+			line.Text = strings.Join(words, " ")
+		}
+		lines = append(lines, line)
+		texts = append(texts, line.Text)
+	}
+	if total == 0 || len(lines) == 0 {
+		return para, false
+	}
+	if len(lines) == len(para.Lines) && strings.Join(texts, " ") == para.Text {
+		return para, true
+	}
+	para.Lines = lines
+	para.Text = strings.Join(texts, " ")
+	return para, true
 }
 
 // getListText extracts all text from a list by concatenating item prefixes and text.
